@@ -47,6 +47,9 @@ type c04Job struct {
 func runC04(r *core.Run) (bool, string) {
 	r.SetRule("a case (evaluation) is one LAYOUT of a declaration set: the same top-level declarations in some order, split over 1–4 files with names in either lexical order, translated by the goose binary built from /repo; " +
 		"expected definition names come from go/parser+go/types on the sources (f, T__m, T, constant/global name), definition order and unquoted identifiers from the Coq reader; " +
+		"the directed sets whose signatures / constant types name a type of the package are translated a second time with -typecheck, where the typing theorem printed after a definition counts as part of what is emitted for that declaration; " +
+		"generated families (c04matrix.go): type-matrix (every kind of local type declaration, incl. aliases of basic types / structs / named types / slices, maps, pointers of local types / aliases, as target of every reference form, from users of every declaration kind), value-matrix (functions, methods, constants, globals × users), imported-twin (the same forms applied to objects of two helper packages while a local declaration with the imported object's bare name, of every declaration kind, depends on the mentioning declaration; an imported object is not a same-package dependency); " +
+		"coverage keys cell/target <kind> × <reference kind> × <relative order> and cell_by_user/<user kind> mentions <target kind> × <reference kind> count the mentions checked per cell; " +
 		"checked per layout: (1) one Definition/Notation per declaration, no name twice; (2) if the Go declaration graph is acyclic, every same-package name mentioned in a body is defined earlier, self-calls go through the rec binder; (3) every layout of a set yields the same set of definitions with identical bodies; " +
 		"distinct = (kind of mentioned declaration × reference kind as read from the emitted text × relative order of user and target in goose's processing order) triples actually observed")
 	r.Assume("go/parser and go/types agree with the Go specification on what the top-level declarations of a package are and which ones a declaration refers to")
@@ -297,6 +300,8 @@ func runC04(r *core.Run) (bool, string) {
 			order = append(order, ds)
 		}
 	}
+	var cellMu sync.Mutex
+	allCells := map[string]bool{}
 	judgeSet := func(ds *declSet) {
 		si := infos[ds]
 		if si.err != "" {
@@ -306,9 +311,12 @@ func runC04(r *core.Run) (bool, string) {
 		refJobs := map[bool]*c04Job{}
 		cells := c04Cells{}
 		defer func() {
+			cellMu.Lock()
 			for _, k := range sortedCellKeys(cells) {
 				r.Count(k, cells[k])
+				allCells[k] = true
 			}
+			cellMu.Unlock()
 		}()
 		for _, j := range bySet[ds] {
 			ref, refJob := refs[j.tc], refJobs[j.tc]
@@ -392,12 +400,34 @@ func runC04(r *core.Run) (bool, string) {
 	}
 	core.Parallel(nDirected, 16, func(i int) { judgeSet(order[i]) })
 	core.Parallel(len(order)-nDirected, 16, func(i int) { judgeSet(order[nDirected+i]) })
+	{
+		nc, nu := 0, 0
+		tks, rks := map[string]bool{}, map[string]bool{}
+		for k := range allCells {
+			if rest, ok := strings.CutPrefix(k, "cell/target "); ok {
+				nc++
+				if f := strings.Split(rest, " × "); len(f) == 3 {
+					tks[f[0]], rks[f[1]] = true, true
+				}
+			} else {
+				nu++
+			}
+		}
+		r.Set("coverage_cells_observed(target kind × reference kind × relative order)", nc)
+		r.Set("coverage_cells_observed(user kind × target kind × reference kind)", nu)
+		r.Set("coverage_target_kinds_observed", sortedKeys(tks))
+		r.Set("coverage_reference_kinds_observed", sortedKeys(rks))
+	}
 	r.Set("layouts_total", len(jobs))
 	r.Set("goose_crashed_layouts", crashed)
 	// atoms exercised
 	atoms := map[string]int{}
 	for _, ds := range sets {
 		for _, a := range ds.Atoms {
+			// generated atoms are named family/target/form[/twin]: counted per family/target
+			if f := strings.Split(a, "/"); len(f) >= 3 {
+				a = f[0] + "/" + f[1] + "/*"
+			}
 			atoms[a]++
 		}
 	}
